@@ -513,6 +513,8 @@ SPECIAL_STRINGS = [
 # Texts wrapped in the element of a rich-string run.  Only for the writer round trip: the workbook encoder of this
 # harness is built on XlsxWriter, which copies such texts into the file as markup instead of escaping them, so it
 # cannot produce a file that holds them as text.
+# line breaks the way other systems write them (for the writer round trip; the encoder of this harness keeps them too)
+CARRIAGE_RETURN_STRINGS = ["a\r\nb", "\r", "x\r\n", "\r\n", "a\rb", "\n\r", "a\r\n\r\nb"]
 RUN_MARKUP_STRINGS = ["<r>x</r>", "<r><t>x</t></r>", "<r></r>", "<r><t>a</t></r><r><t>b</t></r>"]
 ALPHABET = "ab Z09.=-+<>&\"'äß€中\t\n"
 _BOUNDARY_WHOLES = sorted(set(
@@ -663,7 +665,7 @@ LONG_TEXT_LENGTHS = [254, 255, 256, 1023, 8191, 8192, 32765, 32766]  # plus the 
 
 @st.composite
 def writer_cases(draw):
-    cell = st.one_of(st.sampled_from(SPECIAL_STRINGS + RUN_MARKUP_STRINGS), st.text(alphabet=ALPHABET, max_size=8),
+    cell = st.one_of(st.sampled_from(SPECIAL_STRINGS + RUN_MARKUP_STRINGS + CARRIAGE_RETURN_STRINGS), st.text(alphabet=ALPHABET, max_size=8),
                      st.just(""))
     rows = draw(st.lists(st.lists(cell, max_size=6), max_size=6))
     if rows and draw(st.integers(0, 2)) > 0:
